@@ -101,7 +101,7 @@ func premodel(s *graph.Scenario) (*graph.Instance, *model.Graph) {
 func TestCycles(t *testing.T) {
 	kit.Rec.Rule(rule)
 	rapid.Check(t, func(t *rapid.T) {
-		s := graph.Gen(t, graph.GenOpts{MinNodes: 2, MaxNodes: 6, Variants: "NNNLPEU", Aliases: true, Selfs: true})
+		s := graph.Gen(t, graph.GenOpts{MinNodes: 2, MaxNodes: 6, Variants: "NNNLPEU", Aliases: true, Selfs: true, Alt: true})
 		// place required variants: mostly where satisfiable, sometimes not
 		in, g := premodel(s)
 		for i := range s.Nodes {
